@@ -5,7 +5,8 @@ package caching
 
 import "time"
 
-func verifPoint(name string, k Key)            {}
-func verifPointS(name string, s string)        {}
-func verifNow(t int64) int64                   { return t }
-func verifSleep(d time.Duration) time.Duration { return d }
+func verifPoint(name string, k Key)                                            {}
+func verifPointS(name string, s string)                                        {}
+func verifNow(t int64) int64                                                   { return t }
+func verifSleep(d time.Duration) time.Duration                                 { return d }
+func verifAdjustAccess(s *storage, ai *accessedItem, si *storableAccessedItem) {}
